@@ -121,8 +121,12 @@ inline void unregister(const std::string& name) {
   s.data.erase(name);
 }
 
+inline std::string tzdir_path() { const char* d = getenv("TZDIR"); return d ? d : "/repo/testdata/zoneinfo"; }
 inline Zone zone_from_file(const std::string& path, const std::string& kind) {
-  Zone z; z.kind = kind; z.label = "path:" + path;
+  Zone z; z.kind = kind;
+  // shipped zones are labelled relative to TZDIR so that a replay file does not depend on where the tree lives
+  const std::string td = tzdir_path() + "/";
+  z.label = path.compare(0, td.size(), td) == 0 ? "tzdir:" + path.substr(td.size()) : "path:" + path;
   z.bytes = vf::read_file(path);
   z.model = zm::Model::build(zm::read_tzif(z.bytes));
   z.load_name = path;  // absolute path => opened directly
@@ -136,6 +140,7 @@ inline Zone zone_from_bytes(const std::string& bytes, const std::string& kind) {
   return z;
 }
 inline Zone zone_from_label(const std::string& label) {
+  if (label.compare(0, 6, "tzdir:") == 0) return zone_from_file(tzdir_path() + "/" + label.substr(6), "replay");
   if (label.compare(0, 5, "path:") == 0) return zone_from_file(label.substr(5), "replay");
   return zone_from_bytes(vf::unhex(label.substr(4)), "replay");
 }
